@@ -19,6 +19,7 @@ CONSTANTS MaxEntries,  \* entries per namespace
           InPlace,     \* BOOLEAN: include modify_file_in_place (enabled after a reopen)
           Boot,        \* BOOLEAN: include add_eltorito / rm_eltorito / links to the boot catalog
           RefuseByName, \* BOOLEAN: refused representatives per name, not only per (action, reason)
+          Only,        \* set of action names the alphabet is restricted to ({} = all): deep runs over a sub-alphabet
           Life,        \* BOOLEAN: lifecycle steps - close(), new() again on the same object, calls on a closed object
           CfgIds,      \* which configurations (indices into Cfgs)
           Modes,       \* consistency modes of the object: subset of {"lazy", "always"}
@@ -130,8 +131,9 @@ DoClose == /\ Life /\ st.phase = "live" /\ Len(h) <= MaxLen /\ ~Closed(h)
            /\ UNCHANGED <<nref, nsched>>
 
 \* an accepted edit
+InAlphabet(a) == Only = {} \/ a.a \in Only
 Accept == /\ st.phase = "live" /\ Len(h) <= MaxLen
-          /\ \E a \in CandsOf(st) :
+          /\ \E a \in {c \in CandsOf(st) : InAlphabet(c)} :
                LET r == Step(st, a) IN
                /\ r.out \in {"ok", "either"}
                /\ Size(r.acc)
@@ -152,7 +154,7 @@ LifeCands(s) == IF Life THEN {[a |-> "New", cfg |-> Cfgs[c], mode |-> s.mode] : 
                 ELSE {}
 Reject == /\ (st.phase = "live" \/ (Life /\ st.phase = "uninit" /\ h # <<>>)) /\ Len(h) <= MaxLen /\ nref < MaxRefuse
           \* (\E over singleton sets binds evaluated values; a LET would be re-evaluated per use)
-          /\ \E cands \in {CandsOf(st) \cup LifeCands(st)} :
+          /\ \E cands \in {{c \in CandsOf(st) \cup LifeCands(st) : InAlphabet(c)}} :
              \E outc \in {[a \in cands |-> Step(st, a)]} :
              \E refused \in {{a \in cands : outc[a].out = "refuse"}} :
              \E k \in {<<a.a, outc[a].why, RefKey(a)>> : a \in refused} :
